@@ -104,19 +104,27 @@ def big_structure(draw, **kw):
     strands in ONE file (`mixed`), many chains (4-9, or 27-30: more than the alphabet), one long chain
     (10-24 residues).  desc["big"] names the kind."""
     kind = draw(st.sampled_from(["mixed", "mixed", "mixed", "many", "many", "alphabet", "long", "long"]))
+
+    def mk(**base):
+        p = dict(contact=False, variants=0.3)
+        p.update(base)
+        for k, v in kw.items():
+            p[k] = max(v, base.get("nmin", 1)) if k == "nmin" else v
+        return structure(**p)
+
     if kind == "mixed":
-        desc = draw(structure(max_chains=2, nmax=4, contact=False, variants=0.3, **kw))
+        desc = draw(mk(max_chains=2, nmax=4))
         desc["na"] = draw(strands())
         for ch in desc["chains"]:
             if ch["id"] in ("N", "M"):
                 ch["id"] = "P"
     elif kind == "many":
-        desc = draw(structure(min_chains=4, max_chains=9, nmax=3, contact=False, variants=0.3, idpool=MANY_IDS, **kw))
+        desc = draw(mk(min_chains=4, max_chains=9, nmax=3, idpool=MANY_IDS))
     elif kind == "alphabet":
-        desc = draw(structure(min_chains=27, max_chains=30, nmax=2, contact=False, variants=0.3, idpool=MANY_IDS, **kw))
+        desc = draw(mk(min_chains=27, max_chains=30, nmax=2, idpool=MANY_IDS))
         desc["waters"] = desc.get("waters", [])[:1]
     else:
-        desc = draw(structure(max_chains=1, nmin=10, nmax=24, contact=False, variants=0.25, **kw))
+        desc = draw(mk(max_chains=1, nmin=10, nmax=24, variants=0.25))
     if len(desc["chains"]) > 3:
         # chains of a large assembly laid out on a grid (no accidental contacts)
         for ci, ch in enumerate(desc["chains"]):
